@@ -855,8 +855,26 @@ func (fx *FnCtx) chanInv(st *State, ch *Val, v *Val) (string, *Clause) {
 	return env.evalBool(cl.E), cl
 }
 
+// atSends: per-function clauses about a value being sent on a channel (`at-send cls assert P(v)`).
+func (fx *FnCtx) atSends(st *State, ch, v *Val) {
+	if fx.con == nil {
+		return
+	}
+	cls := strings.TrimPrefix(ch.Org, "field ")
+	for _, as := range fx.con.AtSends {
+		if as.Callee != cls {
+			continue
+		}
+		env := fx.fnEnv(st, st.curPoint)
+		env.vars["v"] = v
+		fx.exercised[as] = true
+		fx.oblige(st, fx.oname("at-send", cls+"]"+as.Tag()), "at-send", &as.Clause, env.evalBool(as.E))
+	}
+}
+
 func (fx *FnCtx) sendOp(st *State, x *ssa.Send) {
 	ch := st.val(x.Chan)
+	fx.atSends(st, ch, st.val(x.X))
 	if g, cl := fx.chanInv(st, ch, st.val(x.X)); cl != nil {
 		fx.oblige(st, fx.oname("chan-inv", "send "+strings.TrimPrefix(ch.Org, "field ")), "chan-inv", cl, g)
 	}
@@ -910,6 +928,7 @@ func (fx *FnCtx) selectOp(st *State, x *ssa.Select) {
 	for i, s := range x.States {
 		ch := st.val(s.Chan)
 		if s.Dir == types.SendOnly {
+			fx.atSends(st, ch, st.val(s.Send))
 			if g, cl := fx.chanInv(st, ch, st.val(s.Send)); cl != nil {
 				fx.oblige(st, fx.oname("chan-inv", "send "+strings.TrimPrefix(ch.Org, "field ")), "chan-inv", cl, g)
 			}
